@@ -467,11 +467,15 @@ class TraitType(BaseTraitHandler):
                 trait.post_setattr = post_setattr
                 trait.is_mapped = self.is_mapped
 
-            comparison_mode = metadata.pop("comparison_mode", None)
-            if comparison_mode is not None:
-                trait.comparison_mode = comparison_mode
-
             metadata.setdefault("type", "trait")
+
+            if "comparison_mode" in metadata:
+                # Work on a copy: the trait type keeps its own metadata, so
+                # that a later call produces an identically configured CTrait.
+                metadata = metadata.copy()
+                comparison_mode = metadata.pop("comparison_mode")
+                if comparison_mode is not None:
+                    trait.comparison_mode = comparison_mode
 
         trait.set_default_value(*self.get_default_value())
 
